@@ -9,7 +9,10 @@ from common import *
 
 chk = Check('C12')
 chk.extra['rule'] = ('op sequences over a pool of real Molecule objects with arbitrary integer keys (sparse, negative, '
-                     're-added) and up to 3 real System objects that REFER to pool members (add_molecule incl. force-field '
+                     're-added) - in 45% of the histories a share of the keys of a share of the molecules is handed to the real code as a '
+                     'NON-integer hashable object through an injective per-history translation ((chain, atomname) tuples, tuples / frozensets '
+                     'whose elements are keys of other atoms of the same molecule, strings, mixed; the model keeps Int; a merge is only '
+                     'generated for a receiver with integer keys because merge_molecule takes max() of them and adds 1) - and up to 3 real System objects that REFER to pool members (add_molecule incl. force-field '
                      'propagation / mismatch, System.copy, MergeAllMolecules incl. a system that lists its first molecule again, '
                      'MergeChains); molecule ops: add_node(s_from) with (key, dict) pairs / bare keys / common kwargs / repeated keys, '
                      'remove_node(s_from), add_edge(s_from) with attribute dicts, remove_edge(s_from), make_edges_from_interaction(s|_type), '
@@ -52,24 +55,117 @@ def ff_name(ff):
     return None if ff is None else ff.name
 
 
-def dump_logs(m):
+def is_int(x):
+    return isinstance(x, (int, np.integer)) and not isinstance(x, bool)
+
+
+NAMES4 = ['N', 'CA', 'C', 'O']
+KEY_KINDS = ['chain', 'keys', 'str', 'fset', 'mixed']
+
+
+class KeyMap:
+    """The property quantifies over molecules with ARBITRARY node keys; the model's keys are Int.  One KeyMap per history
+    is the injective translation at the boundary: model key k <-> real key.  W (wrap) sends an Int to a NON-integer
+    hashable object - a (chain, atomname) tuple, a tuple / frozenset whose ELEMENTS are themselves possible keys of the
+    same molecule ((k+1, k+2) next to atoms k+1 and k+2), a string, or a mix - and is injective; real integer keys always
+    stand for themselves (merge_molecule and Block.to_molecule create integer keys).  Forward translation for molecule
+    number i: the key the real molecule HAS for k (k itself or W(k); never both), and for an absent k: W(k) if the style
+    wraps (i, k), else k.  The inverse is static (W^-1 on the objects handed out, identity on ints), so dumps, log entries
+    and correspondence dicts are read back without knowing the molecule."""
+
+    def __init__(self, style=None):
+        self.style = list(style) if style else None          # None = integer keys only | [kind, key modulus, molecule rule]
+        self.back = {}
+        self.used = set()
+
+    def wrap(self, k):
+        kind, mod, _ = self.style
+        if kind == 'mixed':
+            kind = ['int', 'chain', 'str', 'keys', 'fset'][k % 5]
+        elif k % mod:
+            kind = 'int'
+        if kind == 'int':
+            return k
+        if kind == 'chain':
+            w = (k // 4, NAMES4[k % 4])
+        elif kind == 'keys':
+            w = (k + 1, k + 2)
+        elif kind == 'str':
+            w = 'n%d' % k
+        else:
+            w = frozenset((k, k + 1))
+        self.back[w] = k
+        return w
+
+    def wraps_mol(self, i):
+        rule = self.style[2]
+        return rule == 'all' or (rule == 'odd' and i % 2 == 1) or (rule == 'even' and i % 2 == 0) or (rule == 'later' and i >= 1)
+
+    def fwd(self, m, i, k):
+        if self.style is None or type(k) is not int:
+            return k
+        r = self._fwd(m, i, k)
+        self.used.add(type(r).__name__)
+        return r
+
+    def _fwd(self, m, i, k):
+        if k in m._node:
+            return k
+        w = self.wrap(k)
+        if w is k or w in m._node:
+            return w
+        return w if self.wraps_mol(i) else k
+
+    def inv(self, x):
+        if is_int(x):
+            return x
+        try:
+            return self.back[x]
+        except (KeyError, TypeError):
+            return 'unknown-key:%r' % (x,)           # a key the harness never handed out: shows up in the comparison
+
+    def inv_name(self, x):
+        """key of a log format map: an attribute name, or (appended correspondence dict) a node key of a former newcomer"""
+        try:
+            return str(self.back.get(x, x))
+        except TypeError:
+            return str(x)
+
+
+IDENT = KeyMap()
+
+
+def sk(x):
+    return (0, x) if is_int(x) else (1, repr(x))
+
+
+def lohi(u, v):
+    return (u, v) if sk(u) <= sk(v) else (v, u)
+
+
+def all_int_keys(m):
+    return all(is_int(k) for k in m.nodes)
+
+
+def dump_logs(m, km=IDENT):
     rows = []
     for lvl, entries in m.log_entries.items():
         for entry, fmt_args in entries.items():
-            rows.append([lvl, entry, [sorted([str(k), v] for k, v in fa.items()) for fa in fmt_args]])
+            rows.append([lvl, entry, [sorted([km.inv_name(k), km.inv(v)] for k, v in fa.items()) for fa in fmt_args]])
     rows.sort(key=lambda r: (r[0], r[1]))
     return rows
 
 
-def dump_mol(m):
-    nodes = [[k, d.get('atomname'), d.get('resid'), d.get('charge_group'), d.get('chain')] for k, d in m.nodes(data=True)]
-    edges = sorted({(min(u, v), max(u, v)): [min(u, v), max(u, v), d.get('order'), d.get('kind')]
-                    for u, v, d in m.edges(data=True)}.values())
+def dump_mol(m, km=IDENT):
+    inv = km.inv
+    nodes = [[inv(k), d.get('atomname'), d.get('resid'), d.get('charge_group'), d.get('chain')] for k, d in m.nodes(data=True)]
+    edges = sorted({lohi(inv(u), inv(v)): list(lohi(inv(u), inv(v))) + [d.get('order'), d.get('kind')]
+                    for u, v, d in m.edges(data=True)}.values(), key=lambda e: (sk(e[0]), sk(e[1])))
     inters = []
     for t in sorted(m.interactions):
         for i in m.interactions[t]:
-            inters.append([t, list(i.atoms), i.parameters[0], i.meta.get('version'), bool(i.meta.get('edge', True))])
-    return [nodes, edges, inters, sorted(m.citations), m.nrexcl, ff_name(m._force_field), dump_logs(m)]
+            inters.append([t, [inv(a) for a in i.atoms], i.parameters[0], i.meta.get('version'), bool(i.meta.get('edge', True))])
+    return [nodes, edges, inters, sorted(m.citations), m.nrexcl, ff_name(m._force_field), dump_logs(m, km)]
 
 
 def dump_systems(pool, systems):
@@ -77,8 +173,8 @@ def dump_systems(pool, systems):
     return [[ids[id(m)] for m in s.molecules] for s in systems]
 
 
-def dump_pool(pool, systems=()):
-    return (enc([dump_mol(m) for m in pool]) + ' ' + enc(dump_systems(pool, systems)) + ' ' +
+def dump_pool(pool, systems=(), km=IDENT):
+    return (enc([dump_mol(m, km) for m in pool]) + ' ' + enc(dump_systems(pool, systems)) + ' ' +
             enc([ff_name(s.force_field) for s in systems]))
 
 
@@ -186,11 +282,11 @@ SYS_OPS = ('newsys', 'addmol', 'copysys', 'mergeall', 'mergechains')
 SYS_RATE = 0.12
 
 
-def apply(pool, op, systems=None):
+def apply(pool, op, systems=None, km=IDENT):
     """Apply one op to the real pool; return outcome string.  An exception the API does not document
     for the operation (the model never produces it) is an outcome of its own, never a harness crash."""
     try:
-        return _apply(pool, op, systems)
+        return _apply(pool, op, systems, km)
     except Exception as e:  # noqa
         return 'crash:%s' % type(e).__name__
 
@@ -220,7 +316,7 @@ def build_block(cites, nrexcl, ff, steps):
     return b
 
 
-def _apply(pool, op, systems=None):
+def _apply(pool, op, systems=None, km=IDENT):
     kind = op[0]
     if kind in SYS_OPS:
         return apply_sys(pool, systems, op)
@@ -258,35 +354,36 @@ def _apply(pool, op, systems=None):
             if i >= len(pool):
                 return 'badindex'
             m = pool[i]
+            K = lambda k: km.fwd(m, i, k)            # model key -> real key of this molecule
             if kind == 'addnode':
-                m.add_node(op[2], **attrs_kw(*op[3:]))
+                m.add_node(K(op[2]), **attrs_kw(*op[3:]))
             elif kind == 'addnodes':
-                m.add_nodes_from([(k, attrs_kw(*at)) for k, *at in op[2]])
+                m.add_nodes_from([(K(k), attrs_kw(*at)) for k, *at in op[2]])
             elif kind == 'addnodesc':
-                m.add_nodes_from([e[0] if len(e) == 1 else (e[0], attrs_kw(*e[1:])) for e in op[2]], **attrs_kw(*op[3]))
+                m.add_nodes_from([K(e[0]) if len(e) == 1 else (K(e[0]), attrs_kw(*e[1:])) for e in op[2]], **attrs_kw(*op[3]))
             elif kind == 'rmnode':
                 try:
-                    m.remove_node(op[2])
+                    m.remove_node(K(op[2]))
                 except nx.NetworkXError:
                     return 'nxerror'
             elif kind == 'rmnodes':
                 # a one-shot iterator half of the time (see F-C12-2)
-                ks = op[2]
+                ks = [K(k) for k in op[2]]
                 m.remove_nodes_from(iter(ks) if op[3] else list(ks))
             elif kind == 'addedge':
-                m.add_edge(op[2], op[3])
+                m.add_edge(K(op[2]), K(op[3]))
             elif kind == 'addedgea':
-                m.add_edge(op[2], op[3], **eattrs_kw(op[4], op[5]))
+                m.add_edge(K(op[2]), K(op[3]), **eattrs_kw(op[4], op[5]))
             elif kind == 'addedges':
-                m.add_edges_from([(u, v) if (o is None and k is None and (u + v) % 2) else (u, v, eattrs_kw(o, k))
+                m.add_edges_from([(K(u), K(v)) if (o is None and k is None and (u + v) % 2) else (K(u), K(v), eattrs_kw(o, k))
                                   for u, v, o, k in op[2]])
             elif kind == 'rmedge':
                 try:
-                    m.remove_edge(op[2], op[3])
+                    m.remove_edge(K(op[2]), K(op[3]))
                 except nx.NetworkXError:
                     return 'nxerror'
             elif kind == 'rmedges':
-                m.remove_edges_from([tuple(e) for e in op[2]])
+                m.remove_edges_from([tuple(K(x) for x in e) for e in op[2]])
             elif kind == 'mkedges':
                 m.make_edges_from_interaction_type(op[2])
             elif kind == 'mkedgesall':
@@ -294,14 +391,15 @@ def _apply(pool, op, systems=None):
             elif kind == 'clear':
                 m.clear()
             elif kind == 'addinter':
-                m.add_interaction(op[2], tuple(op[3]), [op[4]], meta=meta_kw(op[5], op[6] if len(op) > 6 else True))
+                m.add_interaction(op[2], tuple(K(k) for k in op[3]), [op[4]], meta=meta_kw(op[5], op[6] if len(op) > 6 else True))
             elif kind == 'addorrep':
-                m.add_or_replace_interaction(op[2], tuple(op[3]), [op[4]], meta=meta_kw(op[5], op[7] if len(op) > 7 else True),
+                m.add_or_replace_interaction(op[2], tuple(K(k) for k in op[3]), [op[4]], meta=meta_kw(op[5], op[7] if len(op) > 7 else True),
                                              citations=set(op[6]))
             elif kind == 'rminter':
-                m.remove_interaction(op[2], tuple(op[3]), version=op[4])
+                m.remove_interaction(op[2], tuple(K(k) for k in op[3]), version=op[4])
             elif kind == 'rmmatch':
                 _, _, ty, ats, pr, v, aa = op
+                ats = [K(k) for k in ats]
                 meta = {'version': mk_pred(v)} if v is not None else {}
                 params = [pr] if pr is not None else []
                 if aa is None:
@@ -311,18 +409,18 @@ def _apply(pool, op, systems=None):
                                              parameters=params, meta=meta)
                 m.remove_matching_interaction(ty, tmpl)
             elif kind == 'prune':
-                edge_tuning.prune_edges_between_selections(m, list(op[2]), list(op[3]))
+                edge_tuning.prune_edges_between_selections(m, [K(k) for k in op[2]], [K(k) for k in op[3]])
             elif kind == 'prunesel':
                 sel_a = (lambda d, n=op[2]: d.get('atomname') == n)
                 sel_b = None if op[3] is None else (lambda d, n=op[3][0]: d.get('atomname') == n)
                 edge_tuning.prune_edges_with_selectors(m, sel_a, sel_b)
             elif kind == 'addlog':
                 # the way do_links / do_mapping record entries
-                m.log_entries[op[2]][op[3]] += [dict((n, k) for n, k in fa) for fa in op[4]]
+                m.log_entries[op[2]][op[3]] += [dict((n, K(k)) for n, k in fa) for fa in op[4]]
             elif kind == 'copy':
                 pool.append(m.copy())
             elif kind == 'subgraph':
-                pool.append(m.subgraph(list(op[2])))
+                pool.append(m.subgraph([K(k) for k in op[2]]))
             elif kind == 'merge':
                 j = op[2]
                 if j >= len(pool):
@@ -350,6 +448,48 @@ def op_line(op):
 
 
 # ---- generators -------------------------------------------------------------------------------------------------
+
+GEN_KM = IDENT          # the key translation of the history being generated
+
+
+class MView:
+    """what the generators look at: a real molecule read back in MODEL keys"""
+
+    def __init__(self, m, km):
+        inv = km.inv
+        self.nodes = {inv(k): d for k, d in m.nodes(data=True)}
+        self.edges = [(inv(u), inv(v)) for u, v in m.edges]
+        self.interactions = {t: [Interaction(atoms=tuple(inv(a) for a in x.atoms), parameters=x.parameters, meta=x.meta) for x in its]
+                             for t, its in m.interactions.items()}
+
+    def __len__(self):
+        return len(self.nodes)
+
+
+def gen_key_style(rng):
+    """55% of the histories keep integer keys everywhere (every merge is possible); the others wrap a share of the keys
+    of a share of the molecules into non-integer hashable objects"""
+    if rng.random() < 0.55:
+        return None
+    kind = rng.choice(KEY_KINDS + ['chain', 'keys', 'mixed'])
+    return [kind, 1 if kind == 'mixed' else rng.choice([1, 1, 2, 3]), rng.choice(['all', 'all', 'all', 'odd', 'even', 'later'])]
+
+
+def needs_orderable_keys(op, pool, systems):
+    """TRANSCRIBED ordering assumptions of the real code on node keys.  Only merge_molecule orders keys: a non-empty
+    RECEIVER without cached highest key evaluates max(self) (TypeError for keys that are not mutually comparable) and then
+    numbers the newcomer's atoms from `max + 1` (TypeError unless the highest key is a number); MergeAllMolecules merges
+    into the system's first molecule.  The NEWCOMER's keys are only iterated and used as dict keys, MergeChains merges
+    into a fresh empty molecule, Block.to_molecule numbers from atom_offset; no other editing operation (add / remove
+    node(s) / edge(s) / interaction(s), make_edges, prune_edges, copy, subgraph, find_atoms, edges_between) compares keys.
+    Returns the molecule whose keys must be integers for `op`, or None."""
+    kind = op[0]
+    if kind == 'merge' and op[1] < len(pool) and op[2] < len(pool):
+        return pool[op[1]]
+    if kind == 'mergeall' and op[1] < len(systems) and len(systems[op[1]].molecules) > 1:
+        return systems[op[1]].molecules[0]
+    return None
+
 
 def gen_key(rng, m):
     ks = list(m.nodes) if m is not None else []
@@ -457,7 +597,7 @@ def gen_sys_op(rng, pool, systems):
             size += size if (k and x is mols[0]) else len(x)
         if size > 80 and mols:
             big = max(range(n), key=lambda k: len(pool[k]))
-            return ('rmnodes', big, list(pool[big].nodes)[::2], rng.random() < 0.5)
+            return ('rmnodes', big, [GEN_KM.inv(k) for k in pool[big].nodes][::2], rng.random() < 0.5)
     if r < 0.68 or n >= 12:          # every successful MergeChains adds a molecule: keep the pool small
         return ('mergeall', s)
     rr = rng.random()
@@ -533,7 +673,7 @@ def gen_op(rng, pool, systems=None):
                     rng.choice([0, 1, 5]), rng.choice([0, 2]), rng.choice([0, 3]))
         return ('new', rng.choice([None, 1, 1, 1, 3]), gen_ff(rng))
     i = rng.randrange(n) if rng.random() < 0.95 else n + 1
-    m = pool[i] if i < n else None
+    m = MView(pool[i], GEN_KM) if i < n else None
     its = [(t, x) for t in m.interactions for x in m.interactions[t]] if m is not None else []
     r = rng.random()
     if r < 0.10:
@@ -642,13 +782,56 @@ def gen_op(rng, pool, systems=None):
     return ('merge', i, j)
 
 
-def gen_sequence(rng, length):
-    """Generate ops against a live pool (generation needs the current keys)."""
-    pool, systems, ops = [], [], []
+def realisation_flipped(m, km):
+    if not m.log_entries:
+        return False
+    present = None
+    for entries in m.log_entries.values():
+        for fmt_args in entries.values():
+            for fa in fmt_args:
+                for v in fa.values():
+                    if v not in m._node:
+                        if present is None:
+                            present = {km.inv(k) for k in m.nodes}
+                        if km.inv(v) in present:
+                            return True
+    return False
+
+
+def gen_sequence(rng, length, style=None):
+    """Generate ops (in MODEL keys) against a live pool (generation needs the current keys).  A merge whose receiver
+    holds non-integer keys is not generated (needs_orderable_keys): another operation is drawn instead."""
+    global GEN_KM
+    GEN_KM = km = KeyMap(style)
+    pool, systems, ops, pending = [], [], [], []
     for _ in range(length):
-        op = gen_op(rng, pool, systems)
+        for _attempt in range(30):
+            op = pending.pop(0) if pending else gen_op(rng, pool, systems)
+            recv = needs_orderable_keys(op, pool, systems)
+            if recv is None or all_int_keys(recv):
+                break
+            chk.count('gen_merge_into_non_integer_keys_redrawn')
+        else:
+            op = ('new', 1, MAIN_FF)
         ops.append(op)
-        apply(pool, op, systems)
+        out = apply(pool, op, systems, km)
+        if style and any(realisation_flipped(m, km) for m in pool):
+            # a log entry still names an atom that is gone (F-C12-6) in one form, W(k), and the operation has brought the
+            # model key k back in the other form (an integer made by a merge, or the reverse): model and code would no
+            # longer talk about the same atom.  The history ends before this operation.
+            chk.count('gen_history_cut_stale_log_key_would_change_form')
+            ops.pop()
+            break
+        if op[0] == 'merge' and out == 'ok' and not pending and 0 < len(pool[op[1]]) < 30 and rng.random() < 0.25:
+            # state carried across calls: right after a merge (the highest key is cached) atoms are created IMPLICITLY
+            # above it by one of the edge / node insertions, then the next merge must number from the new highest key
+            top = max(km.inv(k) for k in pool[op[1]].nodes)
+            a, b = top + rng.choice([1, 2, 5]), top + rng.choice([3, 6])
+            pending.append(rng.choice([('addedges', op[1], [[a, b, None, None]]), ('addedge', op[1], top, a),
+                                       ('addedgea', op[1], a, b, 1, None), ('addnodes', op[1], [[a] + gen_attrs(rng)]),
+                                       ('addnodesc', op[1], [[a]], gen_attrs(rng))]))
+            pending.append(('merge', op[1], op[2]))
+    GEN_KM = IDENT
     return ops
 
 
@@ -864,19 +1047,21 @@ def system_oracle(op, out, before, after, sys_before, sys_after, ff_before, ff_a
     return errs
 
 
-def query_oracle(m, d):
+def query_oracle(m, d, km=IDENT):
     """the read-only methods agree with the dump (and, checked by the caller, change nothing)"""
     errs = []
-    if list(m.find_atoms(atomname='A')) != [r[0] for r in d[N_] if r[1] == 'A']:
+    inv = km.inv
+    if [inv(k) for k in m.find_atoms(atomname='A')] != [r[0] for r in d[N_] if r[1] == 'A']:
         errs.append('find_atoms(atomname="A") disagrees with the node table')
+    real = list(m.nodes)
     keys = [r[0] for r in d[N_]]
     half = keys[::2]
-    got = {(min(u, v), max(u, v)) for u, v in m.edges_between(half, keys)}
+    got = {lohi(inv(u), inv(v)) for u, v in m.edges_between(real[::2], real)}
     want = {(e[0], e[1]) for e in d[E_] if e[0] in half or e[1] in half}
     if got != want:
         errs.append('edges_between disagrees with the bond table')
     for t in list(m.interactions):
-        if [list(x.atoms) for x in m.get_interaction(t)] != [r[1] for r in d[I_] if r[0] == t]:
+        if [[inv(k) for k in x.atoms] for x in m.get_interaction(t)] != [r[1] for r in d[I_] if r[0] == t]:
             errs.append('get_interaction(%r) disagrees with the interaction table' % t)
     return errs
 
@@ -885,10 +1070,12 @@ IN_PLACE_ATOMS_KEPT = ('prune', 'prunesel', 'rmmatch', 'addinter', 'addorrep', '
 APPENDING = ('new', 'fromblock', 'buildblock', 'copy', 'subgraph', 'newsys', 'copysys', 'mergechains')
 
 
-def run_sequence(ops):
-    """Run ops on the real code with the oracle evaluated after every op.
+def run_sequence(ops, style=None):
+    """Run ops on the real code with the oracle evaluated after every op.  `ops`, the dumps and therefore every oracle
+    clause are in MODEL keys; `style` fixes the translation to the real node keys (KeyMap) of this history.
     Returns (outs, dumps, errs) with errs = [(message, observation id or None)]."""
     pool, systems, outs, dumps, errs = [], [], [], [], []
+    km = KeyMap(style)
 
     def err(step, op, msg, fid=None):
         errs.append(('step %d %s: %s' % (step, op[0], msg), fid))
@@ -897,9 +1084,19 @@ def run_sequence(ops):
     for step, op in enumerate(ops):
         # the state before this step is the state after the previous one (dumps are never mutated)
         before, sys_before, ff_before = after, sys_after, ff_after
-        out = apply(pool, op, systems)
+        km.used = set()
+        newcomers = []
+        if style and op[0] == 'merge' and op[1] < len(pool) and op[2] < len(pool):
+            newcomers = [pool[op[2]]]
+        elif style and op[0] in ('mergeall', 'mergechains') and op[1] < len(systems):
+            newcomers = systems[op[1]].molecules[(1 if op[0] == 'mergeall' else 0):]
+        if any(not all_int_keys(m) for m in newcomers):
+            chk.count('keys_%s_newcomer_with_non_integer_keys' % op[0])
+        out = apply(pool, op, systems, km)
         outs.append(out)
-        after = [dump_mol(m) for m in pool]
+        for tname in km.used:
+            chk.count('keys_%s_%s_%s' % (op[0], tname, out))
+        after = [dump_mol(m, km) for m in pool]
         sys_after = dump_systems(pool, systems)
         ff_after = [ff_name(s.force_field) for s in systems]
         dumps.append(enc(after) + ' ' + enc(sys_after) + ' ' + enc(ff_after))
@@ -949,9 +1146,9 @@ def run_sequence(ops):
         b = before[op[1]] if (kind not in SYS_OPS and kind not in ('new', 'fromblock', 'buildblock') and op[1] < len(before)) else None
         a = after[op[1]] if b is not None else None
         if b is not None and target is not None:
-            for e in query_oracle(pool[op[1]], a):
+            for e in query_oracle(pool[op[1]], a, km):
                 err(step, op, e)
-            if dump_mol(pool[op[1]]) != a:
+            if dump_mol(pool[op[1]], km) != a:
                 err(step, op, 'a read-only method (find_atoms / edges_between / get_interaction) changed the molecule')
         def clauses():
             # ---- per-operation clauses --------------------------------------------------------------------------------
@@ -1150,8 +1347,9 @@ def load_corpus():
     import glob
     seqs = []
     for f in sorted(glob.glob(os.path.join(VERIF, 'corpus', 'c12_*.json'))):
-        for ops in json.load(open(f))['sequences']:
-            seqs.append([tuple(o) for o in ops])
+        doc = json.load(open(f))
+        for k, ops in enumerate(doc['sequences']):
+            seqs.append(([tuple(o) for o in ops], doc['styles'][k] if 'styles' in doc else None))
     return seqs
 
 
@@ -1174,21 +1372,25 @@ def attribute(errs):
     return [], None
 
 
-sequences = []
-for ops in load_corpus():
-    sequences.append(ops)
+sequences = []          # (ops in model keys, key style)
+for ops, style in load_corpus():
+    sequences.append((ops, style))
 rng = chk.rng('ops')
 NSEQ = 2000 if chk.thorough else 500
 for s in range(NSEQ):
     L = rng.choice([5, 10, 20, 40]) if not chk.thorough else rng.choice([10, 40, 100, 200])
     SYS_RATE = rng.choice([0.0, 0.1, 0.3])          # a third of the histories are system-heavy
     MAIN_FF = rng.choice([None, None, 'ffA'])
-    sequences.append(gen_sequence(rng, L))
+    style = gen_key_style(rng)
+    sequences.append((gen_sequence(rng, L, style), style))
 
 all_lines = []
 per_seq = []
-for ops in sequences:
-    outs, dumps, errs = run_sequence(ops)
+styles = []
+for ops, style in sequences:
+    styles.append(style)
+    chk.count('history_keys_%s' % ('integer' if not style else style[0]))
+    outs, dumps, errs = run_sequence(ops, style)
     lines = ['x' + 'reset'.encode().hex()] + [op_line(op) for op in ops]
     per_seq.append((ops, outs, dumps, errs, len(all_lines), len(lines)))
     all_lines.extend(lines)
@@ -1211,9 +1413,64 @@ for si, (ops, outs, dumps, errs, start, n) in enumerate(per_seq):
     nontriv = bool(kinds & {'rmnode', 'rmnodes', 'merge', 'mergeall', 'mergechains', 'clear'}) and \
         bool(kinds & {'addinter', 'addorrep', 'fromblock', 'buildblock'})
     msgs, fid = attribute(errs)
-    chk.case('seq-%d' % si, [op_line(o) for o in ops],
+    # the key style is part of the failing input (it is not sent to the model: the model's keys are Int)
+    chk.case('seq-%d' % si, ([line('keystyle', *styles[si])] if styles[si] else []) + [op_line(o) for o in ops],
              impl if impl != mo else 'agree(%d steps)' % len(ops), mo if impl != mo else 'agree(%d steps)' % len(ops),
              msgs[:3], nontriv, finding=fid)
+
+# ---- the ordering assumptions of merge_molecule on the RECEIVER's keys (needs_orderable_keys), oracle only -------
+# a non-empty receiver that holds a non-integer key cannot receive (max() of mixed types, or `max + 1` on a non-number):
+# TypeError is what the code does today (counted, a note if that changes); C12's clause is that the failing merge changes
+# nothing.  The same newcomer is then merged into an EMPTY receiver, which must work whatever the keys are.
+orng = chk.rng('key-order')
+for ci in range(60 if chk.thorough else 16):
+    style = [orng.choice(KEY_KINDS), 1, 'all']
+    km = KeyMap(style)
+    pool = [Molecule(nrexcl=1), Molecule(nrexcl=1), Molecule(nrexcl=1)]
+    for m in pool:
+        m.citations = set()
+    ops = []
+    for k in orng.sample(range(-2, 9), orng.randint(1, 5)):
+        ops.append(('addnode', 0, k) + tuple(gen_attrs(orng)))
+    mixed = orng.random() < 0.5
+    if mixed:
+        nx.Graph.add_node(pool[0], 50, atomname='X')          # an integer key next to the others
+    for k in orng.sample(range(0, 9), orng.randint(1, 4)):
+        ops.append(('addnode', 1, k) + tuple(gen_attrs(orng)))
+    for op in ops:
+        apply(pool, op, [], km)
+    keys0, keys1 = [km.inv(k) for k in pool[0].nodes], [km.inv(k) for k in pool[1].nodes]
+    if len(keys0) > 1:
+        ops.append(('addinter', 0, 'bonds', keys0[:2], 'p', None, True))
+        apply(pool, ops[-1], [], km)
+    if len(keys1) > 1:
+        ops.append(('addinter', 1, 'bonds', keys1[-2:], 'q', None, True))
+        ops.append(('addedge', 1, keys1[0], keys1[-1]))
+        apply(pool, ops[-2], [], km), apply(pool, ops[-1], [], km)
+    before = [dump_mol(m, km) for m in pool]
+    errs = []
+    if all_int_keys(pool[0]):
+        out = 'skipped'          # the style kept integers (mixed style): nothing to observe
+    else:
+        out = apply(pool, ('merge', 0, 1), [], km)
+        chk.count('key_order_merge_into_%s_receiver_%s' % ('mixed' if mixed else 'non_integer', out))
+        if out != 'crash:TypeError':
+            note = 'merge_molecule into a receiver with non-integer keys no longer raises TypeError (%s): needs_orderable_keys is outdated' % out
+            if note not in chk.notes:
+                chk.notes.append(note)
+        if out != 'ok' and [dump_mol(m, km) for m in pool] != before:
+            errs.append('merge into a receiver with non-orderable keys failed with %s but changed the state' % out)
+    out2 = apply(pool, ('merge', 2, 1), [], km)
+    after = [dump_mol(m, km) for m in pool]
+    errs += ['key-order: ' + e for e in check_consistency(pool)]
+    want = merge_expect(before[2], before[1])
+    if out2 != 'ok' or after[2][N_] != want['nodes'] or after[2][E_] != want['edges'] or not same_inters(after[2][I_], want['inter_rows']):
+        errs.append('merge of a newcomer with non-integer keys into an empty receiver: outcome %s or atoms / bonds / interactions not kept' % out2)
+    if after[1] != before[1]:
+        errs.append('merging changed the newcomer')
+    chk.count('key_order_newcomer_into_empty_%s' % out2)
+    chk.case('key-order-%d' % ci, [line('keystyle', *style), line('mixed', mixed)] + [op_line(o) for o in ops],
+             out + ' ' + out2 + ' ' + enc(after), None, errs[:3], True)
 
 # ---- edge_tuning.add_edges_at_distance: oracle only (positions are not part of the model) ----------------------
 # integer grid positions and thresholds k + 0.5, so every distance is far from the threshold and the expectation
